@@ -201,10 +201,11 @@ def fd_stage(ctx, recs):
     cases = res.printed
     if len(cases) < 100:
         raise vlib.Infra("DeadQueueScope exported only %d cases" % len(cases))
-    m = ctx.tlc("DeadQueueScope", "DeadQueueScope_mut.cfg", deadlock=False, timeout=600, workers=2,
-                overrides={"M_DeadQueueOnCopy": "FALSE"}, name="DeadQueueScope mutant M_DeadQueueOnCopy off")
-    if m.ok or m.violated != "DeadQueueIffDeclared":
-        raise vlib.Infra("spec mutant M_DeadQueueOnCopy=FALSE is not rejected (ok=%s %s)" % (m.ok, m.violated))
+    for sw in ("M_DeadQueueOnCopy", "M_LenCheckedBeforeTypeRemoved"):
+        m = ctx.tlc("DeadQueueScope", "DeadQueueScope_mut.cfg", deadlock=False, timeout=600, workers=2,
+                    overrides={sw: "FALSE"}, name="DeadQueueScope mutant %s off" % sw)
+        if m.ok or m.violated != "DeadQueueIffDeclared":
+            raise vlib.Infra("spec mutant %s=FALSE is not rejected (ok=%s %s)" % (sw, m.ok, m.violated))
     st = ctx.tlc("DeadQueueScope", "DeadQueueScope_strict.cfg", deadlock=False, timeout=600, workers=2,
                  name="DeadQueueScope strict DeadQueueIsOwn, deviation on")
     if st.ok or st.violated != "DeadQueueIsOwn":
@@ -217,7 +218,7 @@ def fd_stage(ctx, recs):
     if quick:
         two = [c for c in cases if len(c["cfgs"]) == 2]
         three = [c for c in cases if len(c["cfgs"]) > 2]
-        cases = two + ctx.rng.sample(three, min(len(three), 40))
+        cases = two + ctx.rng.sample(three, min(len(three), 60))
     for i, c in enumerate(cases):
         c["idx"] = i
     binary = ctx.c09o_builds["fd"].result()
@@ -240,8 +241,16 @@ def fd_stage(ctx, recs):
         base = {"stage": "fd", "case": {"cfgs": c["cfgs"], "order": c["order"]}}
         if r["static_plain_has_dq"]:
             recs.append(dict(base, kind="fd_static_info_has_dead_queue", dq_type=r.get("static_plain_dq_type")))
+        # getStaticInfo per section shape: a dead queue iff the section names a type (an empty section = none)
+        for shape, want in (("none", False), ("empty", False), ("type", True), ("a", True)):
+            got = (r.get("static_shape_has_dq") or {}).get(shape)
+            if got is not None and got != want:
+                recs.append(dict(base, kind="fd_static_info_dead_queue_dropped" if want else "fd_static_info_has_dead_queue",
+                                 section_shape=shape))
         for pi, pp in enumerate(r["pipes"]):
-            b = dict(base, pipeline=pi + 1, declared=pp["cfg"], observed={k: pp[k] for k in ("errcb", "handed", "commits")})
+            declared = pp["cfg"] not in ("none", "empty")       # the section names a type; {} is the same as no section
+            want_name = "default" if pp["cfg"] == "type" else pp["cfg"]
+            b = dict(base, pipeline=pi + 1, section=pp["cfg"], observed={k: pp[k] for k in ("errcb", "handed", "commits")})
             offs = sorted(pp["commits"])
             if pp.get("timeout"):
                 recs.append(dict(b, kind="fd_hang"))
@@ -251,13 +260,16 @@ def fd_stage(ctx, recs):
             if pp["errcb"] != len(offs):              # one event per batch: one given-up batch per event
                 recs.append(dict(b, kind="fd_error_callback_count"))
             handed = pp["handed"] or []
-            if pp["cfg"] == "none":
+            if not declared:
                 if handed:
                     recs.append(dict(b, kind="fd_foreign_dead_queue", dq_names=sorted({h["dq_name"] for h in handed})))
             else:
-                if sorted(str(h["offset"]) for h in handed) != offs:
+                if not handed:
+                    # declared, never set up: nothing handed over, the main output commits
+                    recs.append(dict(b, kind="fd_declared_dead_queue_not_used", type_only_section=pp["cfg"] == "type"))
+                elif sorted(str(h["offset"]) for h in handed) != offs:
                     recs.append(dict(b, kind="fd_dead_queue_handover"))
-                wrong = sorted({h["dq_name"] for h in handed if h["dq_name"] != pp["cfg"]})
+                wrong = sorted({h["dq_name"] for h in handed if h["dq_name"] != want_name})
                 if wrong:
                     recs.append(dict(b, kind="fd_dead_queue_config_of_other_pipeline", got=wrong,
                                      got_is_config_of_last_constructed_pipeline_with_dead_queue=wrong == [c["model_dq_config"][pi]],
@@ -300,7 +312,7 @@ def stage(ctx):
         "attempt and file has no retry option: not covered)",
     ]
     ctx.assumptions.append(
-        "C09 dead-queue scope: 2..3 pipelines with one output type and one dead-queue type, built through fd.addPipeline in every "
+        "C09 dead-queue scope: per pipeline the deadqueue section is absent, {}, type only, or type + option ({} is treated as absent, as the code does); 2..3 pipelines with one output type and one dead-queue type, built through fd.addPipeline in every "
         "order with harness plugins around the real RetriableBatcher / Router (real output plugins cannot be imported into package "
         "fd: import cycle); one event per batch")
     vlib.log("C09 outputs stage: %s" % json.dumps(info))
